@@ -20,7 +20,14 @@ RULE = ("histories (Hypothesis RuleBasedStateMachine, <= 20 / 40 steps) over doc
         "result (or the exception type) must equal the one obtained in pristine forked children "
         "under PYTHONHASHSEED 0 and 1 (thorough 0-3); after every step the dumps of all live "
         "caption sets other than the one being edited must be unchanged. Non-trivial: the "
-        "history has a read after an edit, or a read on a reused reader.")
+        "history has a read after an edit, or a read on a reused reader. "
+        "Document families that resemble each other are part of the pool: DFXP with one region "
+        "/ style markup and varying definitions, DFXP whose region references (31 different "
+        "ids) sit on body / div / p / span or on none of them (inheritance from ancestors or "
+        "descendants), SAMI with varying P rules, WebVTT cues with starts from a small pool in "
+        "any order (strict readers reject part of them), corpus documents with one digit "
+        "changed. A second read rule picks a reader object that exists already and lets it read "
+        "any document of its format. ")
 ASSUMPTIONS = [
     "an exception type counts as the outcome of a read",
     "documents no reader accepts are part of the domain (they must be rejected the same way "
@@ -80,6 +87,46 @@ def doc_strategy():
                '</div></body></tt>')
         return {"op": "add_doc", "fmt": "dfxp", "doc": doc}
 
+    REGION_IDS = [f"r{k}" for k in range(24)] + ["bottom", "top", "pop1", "Region_0", "speaker", "a", "b"]
+
+    @st.composite
+    def dfxp_regions(draw):
+        # the region reference sits on any of div / p / span, or on none of them; elements
+        # without a reference of their own inherit from ancestors or (if unambiguous) descendants
+        ids = draw(st.lists(st.sampled_from(REGION_IDS), min_size=1, max_size=2, unique=True))
+        regs = ""
+        for i in ids:
+            org = draw(st.sampled_from(["10% 10%", "10% 70%", "25% 5%"]))
+            ext = draw(st.sampled_from(["80% 20%", "50% 10%"]))
+            al = draw(st.sampled_from(["left", "center", "right"]))
+            regs += f'<region xml:id="{i}" tts:origin="{org}" tts:extent="{ext}" tts:textAlign="{al}"/>'
+
+        def ref(one_in):
+            return f' region="{draw(st.sampled_from(ids))}"' if draw(st.integers(1, one_in)) == 1 else ""
+        ps = ""
+        for k in range(draw(st.integers(1, 3))):
+            inner = "t%d" % k
+            for _ in range(draw(st.integers(0, 3))):
+                inner += draw(st.sampled_from(["<br/>", " more", "<span>sp</span>"]))
+                if draw(st.integers(0, 3)) == 0:
+                    inner += f"<span{ref(1)}>rs</span>"
+            ps += f'<p begin="00:00:{2 * k:02d}.000" end="00:00:{2 * k + 1:02d}.000"{ref(2)}>{inner}</p>'
+        doc = ('<?xml version="1.0" encoding="utf-8"?>\n<tt xml:lang="en" xmlns="http://www.w3.org/ns/ttml" '
+               'xmlns:tts="http://www.w3.org/ns/ttml#styling"><head><styling/>'
+               f'<layout>{regs}</layout></head><body{ref(8)}><div xml:lang="en"{ref(4)}>{ps}</div></body></tt>')
+        return {"op": "add_doc", "fmt": "dfxp", "doc": doc}
+
+    @st.composite
+    def webvtt_family(draw):
+        # cues with starts from a small pool, not necessarily in order, some ending before they
+        # start: strict readers (ignore_timing_errors=False) reject part of these
+        cues = []
+        for k in range(draw(st.integers(1, 4))):
+            a = draw(st.sampled_from([0, 1, 2, 5, 9, 9, 30]))
+            b = a + draw(st.sampled_from([1, 1, 2, 0, -1]))
+            cues.append(f"00:00:{a:02d}.000 --> 00:00:{max(b, 0):02d}.500\ncue {k}\n")
+        return {"op": "add_doc", "fmt": "webvtt", "doc": "WEBVTT\n\n" + "\n".join(cues)}
+
     @st.composite
     def sami_family(draw):
         margin = draw(st.sampled_from(["5%", "10%", "0%"]))
@@ -104,7 +151,8 @@ def doc_strategy():
 
     return st.one_of(st.integers(0, n - 1).map(lambda i: {"op": "add_doc", "corpus": i}),
                      st.integers(0, n - 1).map(lambda i: {"op": "add_doc", "corpus": i}),
-                     gen_doc.map(build), dfxp_family(), sami_family(), mutated_corpus())
+                     gen_doc.map(build), dfxp_family(), dfxp_regions(), sami_family(), webvtt_family(),
+                     mutated_corpus())
 
 
 def call_strategy(fmt):
@@ -305,6 +353,17 @@ def machine(tier, hook):
             fmt = self.st.docs[i][0]
             self._do({"op": "read", "doc_i": i, "ctor": data.draw(ctor_strategy(fmt)),
                       "call": data.draw(call_strategy(fmt)), "pooled": data.draw(st.booleans())})
+
+        @precondition(lambda self: len(self.st.pool) > 0)
+        @rule(data=st.data())
+        def read_pooled(self, data):
+            # a reader object that exists already reads again (any document of its format)
+            keys = sorted(self.st.pool)
+            fmt, ctor = keys[data.draw(st.integers(0, len(keys) - 1))]
+            cand = [i for i, d in enumerate(self.st.docs) if d[0] == fmt]
+            i = cand[data.draw(st.integers(0, len(cand) - 1))]
+            self._do({"op": "read", "doc_i": i, "ctor": json.loads(ctor),
+                      "call": data.draw(call_strategy(fmt)), "pooled": True})
 
         @precondition(lambda self: len(self.st.live) > 0)
         @rule(j=st.integers(0, 7), w=st.sampled_from(["srt", "webvtt", "dfxp", "sami", "microdvd",
